@@ -138,11 +138,49 @@ func evalC15(c c15Case, o *Obs) error {
 		if len(pool) == 0 && op.Op != "newmaster" {
 			continue
 		}
-		if len(pool) >= 10 && (op.Op == "newmaster" || op.Op == "fromstring" || op.Op == "newext" || op.Op == "child" || op.Op == "neuter") {
+		if len(pool) >= 10 && (op.Op == "newmaster" || op.Op == "fromstring" || op.Op == "newext" || op.Op == "child" || op.Op == "childz" || op.Op == "childlz" || op.Op == "neuter") {
 			continue // pool full: only mutating/observing ops
 		}
 		when := fmt.Sprintf("after step %d (%s)", step, op.Op)
 		deepAll := false
+		zeroKey := func(a int) error {
+			e := pool[a]
+			var bufs [][]byte
+			for _, name := range c15Fields {
+				b, err := privateBuf(e.k, name)
+				if err != nil {
+					return err
+				}
+				bufs = append(bufs, b)
+			}
+			e.k.Zero()
+			for i, b := range bufs {
+				if !allZero(b) {
+					return fmt.Errorf("key #%d (%s): after Zero() the buffer that held %s still contains %x", a, e.origin, c15Fields[i], b)
+				}
+			}
+			if s := e.k.String(); s != "zeroed extended key" {
+				return fmt.Errorf("key #%d: after Zero() String() = %q", a, s)
+			}
+			if _, err := e.k.ECPrivKey(); err == nil {
+				return fmt.Errorf("key #%d: after Zero() ECPrivKey() still succeeds", a)
+			}
+			if e.k.IsPrivate() {
+				return fmt.Errorf("key #%d: after Zero() IsPrivate() is true", a)
+			}
+			if !e.zeroed {
+				o.Class("C15:zero")
+				for _, j := range e.rel {
+					if !pool[j].zeroed {
+						interesting = true
+						o.Class("C15:zero-with-live-relative")
+					}
+				}
+			}
+			e.zeroed = true
+			deepAll = true
+			return nil
+		}
 		switch op.Op {
 		case "newmaster":
 			if op.Net < 0 || op.Net >= len(nets) {
@@ -258,41 +296,57 @@ func evalC15(c c15Case, o *Obs) error {
 			}
 			deepAll = true
 		case "zero":
+			if err := zeroKey(pick(op.A)); err != nil {
+				return err
+			}
+		case "childz":
+			// a child is derived and, before anybody has looked at it, its parent is erased: the child is complete
 			a := pick(op.A)
-			e := pool[a]
-			var bufs [][]byte
-			for _, name := range c15Fields {
-				b, err := privateBuf(e.k, name)
+			if pool[a].zeroed {
+				continue
+			}
+			i := op.I
+			if pool[a].r.Priv == nil {
+				i &= 0x7fffffff
+			}
+			r, rerr := pool[a].r.child(i)
+			if rerr != nil {
+				continue
+			}
+			k, err := pool[a].k.Child(i)
+			if err != nil {
+				return fmt.Errorf("key #%d (%s): Child(%d) failed: %v", a, pool[a].origin, i, err)
+			}
+			pool = append(pool, &c15Entry{k: k, r: r, origin: fmt.Sprintf("#%d.Child(%d)@%d, parent zeroed at once", a, i, step), rel: []int{a}})
+			pool[a].rel = append(pool[a].rel, len(pool)-1)
+			o.Class("C15:child-then-parent-zeroed-unobserved")
+			if err := zeroKey(a); err != nil {
+				return err
+			}
+		case "childlz":
+			// two children whose private keys begin with a zero byte (about one index in 256), alive at the same time
+			a := pick(op.A)
+			if pool[a].zeroed || pool[a].r.Priv == nil || len(pool) >= 9 {
+				continue
+			}
+			found := 0
+			for i := op.I | 0x80000000; found < 2 && i < (op.I|0x80000000)+4000 && i >= 0x80000000; i++ {
+				r, rerr := pool[a].r.child(i)
+				if rerr != nil || r.Priv == nil || pad32(r.Priv)[0] != 0 {
+					continue
+				}
+				k, err := pool[a].k.Child(i)
 				if err != nil {
-					return err
+					return fmt.Errorf("key #%d (%s): Child(%d) failed: %v", a, pool[a].origin, i, err)
 				}
-				bufs = append(bufs, b)
+				pool = append(pool, &c15Entry{k: k, r: r, origin: fmt.Sprintf("#%d.Child(%d)@%d (leading zero byte)", a, i, step), rel: []int{a}})
+				pool[a].rel = append(pool[a].rel, len(pool)-1)
+				found++
 			}
-			e.k.Zero()
-			for i, b := range bufs {
-				if !allZero(b) {
-					return fmt.Errorf("key #%d (%s): after Zero() the buffer that held %s still contains %x", a, e.origin, c15Fields[i], b)
-				}
+			if found == 2 {
+				o.Class("C15:two-leading-zero-children")
+				interesting = true
 			}
-			if s := e.k.String(); s != "zeroed extended key" {
-				return fmt.Errorf("key #%d: after Zero() String() = %q", a, s)
-			}
-			if _, err := e.k.ECPrivKey(); err == nil {
-				return fmt.Errorf("key #%d: after Zero() ECPrivKey() still succeeds", a)
-			}
-			if e.k.IsPrivate() {
-				return fmt.Errorf("key #%d: after Zero() IsPrivate() is true", a)
-			}
-			if !e.zeroed {
-				o.Class("C15:zero")
-				for _, j := range e.rel {
-					if !pool[j].zeroed {
-						interesting = true
-						o.Class("C15:zero-with-live-relative")
-					}
-				}
-			}
-			e.zeroed = true
 			deepAll = true
 		case "ecpub":
 			a := pick(op.A)
@@ -360,7 +414,11 @@ func genC15(t *rapid.T) c15Case {
 	c.Ops = append(c.Ops, c15Op{Op: "newmaster", Seed: genBytes(t, "seed", 16, 32), Net: genNet(t)})
 	for i := 0; i < n; i++ {
 		op := c15Op{A: rapid.IntRange(0, 9).Draw(t, "a")}
-		switch rapid.IntRange(0, 19).Draw(t, "op") {
+		switch rapid.IntRange(0, 22).Draw(t, "op") {
+		case 20, 21:
+			op.Op, op.I = "childz", genIndex(t)
+		case 22:
+			op.Op, op.I = "childlz", uint32(rapid.IntRange(0, 1<<20).Draw(t, "lzstart"))
 		case 0:
 			op.Op, op.Seed, op.Net = "newmaster", genBytes(t, "seed", 16, 32), genNet(t)
 		case 1, 2:
